@@ -213,6 +213,8 @@ def surrogate_case(cid: str, seed: int, budget: int, warm: int, fancy: bool = Fa
     # everything recorded until the process was closed; evaluations made while closing (log writing) are "extra"
     # every real-system value is compared with a fresh objective on a PRISTINE copy of the system
     fresh_inst = SystemModel(pristine(), inst.controller, inst.model)
+    collector = FigureOfMeritLE(fresh_inst, True)      # re-collects the training data from scratch
+    collector.initialize()
     raw_evals = 0
     mode = "raw"
     for e in events:
@@ -228,6 +230,7 @@ def surrogate_case(cid: str, seed: int, budget: int, warm: int, fancy: bool = Fa
             fo = FigureOfMeritLE(fresh_inst, False)
             with np.errstate(all="ignore"):
                 e["fresh"] = f64(float(fo.evaluate(xx)))
+                collector.evaluate(xx)
             e["has_fresh"] = 1
     # after the run: the objective must still measure the real system
     probe = np.array([0.25, -0.5, 0.125, 0.5, -0.25, 0.75, 0.1, -0.3, 0.2][: space.dimension] +
@@ -238,9 +241,17 @@ def surrogate_case(cid: str, seed: int, budget: int, warm: int, fancy: bool = Fa
     sc, df = rows_of(obj)
     events.append({"a": "eval", "v": f64(after), "sc": sc, "df": df, "fresh": f64(want), "has_fresh": 1})
     raw_evals += 1
+    # content of the recorded training data vs. a from-scratch re-collection (compared by TLC through digests)
+    import zlib
+    with np.errstate(all="ignore"):
+        collector.evaluate(probe)
+    got = base.get_differentials(obj) if rows_of(obj)[0] > 0 else (np.zeros(0), np.zeros(0))
+    exp = collector.get_differentials()
+    crc = [small(zlib.crc32(np.ascontiguousarray(a).tobytes()) & 0x7FFFFFFF) for a in (got[0], got[1], exp[0], exp[1])]
     extra = raw_evals - fes          # the probe (1) plus at most one re-evaluation of the best when closing
     return {"id": cid, "steps": events, "fes": small(fes), "budget": budget,
-            "extra": small(extra) if extra in (1, 2) else 0, "n_events": len(events), "fancy_logs": fancy}
+            "extra": small(extra) if extra in (1, 2) else 0, "n_events": len(events), "fancy_logs": fancy,
+            "data_crc": crc[:2], "fresh_crc": crc[2:]}
 
 
 def find_bad2(inst) -> list:
